@@ -206,15 +206,31 @@ pub fn candidates(sink: &mut Sink, seed: u64, thorough: bool) {
     // the two witnesses of the design document first
     specs.push(mk(b"12345".to_vec(), None, None, None, None, "cand:witness".into()));
     specs.push(mk(b"7".to_vec(), None, None, None, None, "cand:witness".into()));
-    let small = if thorough { 2400 } else { 260 };
-    for i in 0..small {
+    // Small symbols: many more inputs are built than are judged.  Only a flipped arg-min is observable, and a flip needs
+    // a close call, so the inputs whose two best recorded scores are closest are kept (plus a random share).  The crate's
+    // own scores only SELECT inputs here; the verdict is TLC's, on the documented penalty of the recorded candidates.
+    let (pool, keep_close, keep_random) = if thorough { (40_000usize, 2400usize, 600usize) } else { (12_000, 700, 200) };
+    let mut scored: Vec<(u32, BuildSpec)> = Vec::new();
+    for i in 0..pool {
         let v = 1 + i % 4;
         let e = (i / 4) % 4;
         let mode = (i / 16) % 3;
         let cap = capacity(mode, e, v);
         let n = r.gen_range(0..=cap);
-        specs.push(mk(payload(&mut r, mode, n, false), Some(e), if i % 2 == 0 { Some(mode) } else { None }, Some(v), if i % 13 == 0 { Some(i % 8) } else { None }, format!("cand:{v}:{e}")));
+        let s = mk(payload(&mut r, mode, n, false), Some(e), if i % 2 == 0 { Some(mode) } else { None }, Some(v), if i % 97 == 0 { Some(i % 8) } else { None }, format!("cand:{v}:{e}"));
+        verif::start_recording();
+        let _ = std::panic::catch_unwind(std::panic::AssertUnwindSafe(|| s.builder().build().is_ok()));
+        let mut sc: Vec<u32> = verif::take_candidates().iter().map(|c| c.score).collect();
+        sc.sort();
+        let margin = if sc.len() >= 2 { sc[1] - sc[0] } else { 0 };
+        scored.push((margin, s));
     }
+    let mut idx: Vec<usize> = (0..scored.len()).collect();
+    idx.sort_by_key(|&i| (scored[i].0, i));
+    let mut chosen: Vec<usize> = idx[..keep_close.min(idx.len())].to_vec();
+    for k in 0..keep_random { let i = idx[keep_close + (k * 7919) % (idx.len() - keep_close)]; if !chosen.contains(&i) { chosen.push(i); } }
+    chosen.sort();
+    for i in chosen { let mut s = scored[i].1.clone(); s.tag = format!("{}:m{}", s.tag, scored[i].0.min(9)); specs.push(s); }
     let mid = if thorough { 220 } else { 22 };
     for i in 0..mid {
         let v = 5 + i % 11;
